@@ -22,6 +22,7 @@ import (
 	uuid "github.com/satori/go.uuid"
 	"pgregory.net/rapid"
 	"verifharness/gen"
+	"verifharness/hutil"
 	"verifharness/idxsm"
 	"verifharness/pbt"
 )
@@ -369,10 +370,9 @@ func runProgram(c Case, pin bool, o *pbt.Obs) *pbt.Failure {
 	select {
 	case <-done:
 	case <-time.After(20 * time.Second):
-		buf := make([]byte, 1<<20)
-		buf = buf[:runtime.Stack(buf, true)]
+		buf := hutil.AllStacks()
 		var parked []string
-		for _, g := range strings.Split(string(buf), "\n\n") {
+		for _, g := range strings.Split(buf, "\n\n") {
 			if strings.Contains(g, "/repo/index/") && (strings.Contains(g, "[semacquire") || strings.Contains(g, "[sync.") || strings.Contains(g, "RWMutex")) {
 				if m := raceFrame.FindStringSubmatch(g); m != nil {
 					parked = append(parked, strings.TrimPrefix(m[1], "/repo/"))
@@ -610,9 +610,8 @@ func runProgram(c Case, pin bool, o *pbt.Obs) *pbt.Failure {
 	case f := <-drained:
 		return f
 	case <-time.After(10 * time.Second):
-		buf := make([]byte, 1<<20)
-		buf = buf[:runtime.Stack(buf, true)]
-		for _, g := range strings.Split(string(buf), "\n\n") {
+		buf := hutil.AllStacks()
+		for _, g := range strings.Split(buf, "\n\n") {
 			if strings.Contains(g, "c13.runProgram.func") && strings.Contains(g, "/repo/index/") && (strings.Contains(g, "[semacquire") || strings.Contains(g, "[sync.") || strings.Contains(g, "RWMutex")) {
 				if m := raceFrame.FindStringSubmatch(g); m != nil {
 					return pbt.Failf("C13:deadlock", "after quiescence a single goroutine removing the stored items one by one has been blocked for 10 s inside the index at %s: a lock was never released", strings.TrimPrefix(m[1], "/repo/"))
@@ -709,7 +708,7 @@ func check(c Case, o *pbt.Obs) *pbt.Failure {
 func TestConcurrentIndex(t *testing.T) {
 	pbt.Run(t, pbt.Prop[Case]{
 		ID: "C13", Name: "TestConcurrentIndex",
-		Rule: "rapid-generated concurrent programs on a fresh index.Hnsw (race-detector build): 1 writer (two thirds of the cases) or 2-6 writers plus 0-6 readers, each a list of 4-40 Insert/Remove/Get/Len/Search/yield ops, a quarter of the readers' searches with a caller context that ends 1-100 microseconds into the search or has already ended (the single writer additionally installs snapshots: Save then Load of the bytes, as a replica's apply loop does while it serves reads) over a pool of 2-6 shared ids (in one case of ten on top of 70-110 stored items that no goroutine touches), every (id,version) with a unique vector, GOMAXPROCS in {2,4,16}, each program run 1-4 times; oracles: no new race report in the GORACE log while the program ran, no panic, no deadlock (20 s watchdog with index frames in the dump), per-id insert/remove/get outcomes linearizable as a set (porcupine), every search item corresponds to a version that may have been live during the search with exactly its score, and at quiescence Len == retrievable ids == stored vertices, structural invariants hold and searches satisfy C01's predicate, and after insert-only programs inside C07's exactness regime (n <= 2M+1, k = n) every stored item is returned, and finally one goroutine can remove every stored item again (no lock was left behind); non-trivial = >=2 goroutines touch the same id and one of them writes it; distinct = distinct case JSON",
+		Rule:    "rapid-generated concurrent programs on a fresh index.Hnsw (race-detector build): 1 writer (two thirds of the cases) or 2-6 writers plus 0-6 readers, each a list of 4-40 Insert/Remove/Get/Len/Search/yield ops, a quarter of the readers' searches with a caller context that ends 1-100 microseconds into the search or has already ended (the single writer additionally installs snapshots: Save then Load of the bytes, as a replica's apply loop does while it serves reads) over a pool of 2-6 shared ids (in one case of ten on top of 70-110 stored items that no goroutine touches), every (id,version) with a unique vector, GOMAXPROCS in {2,4,16}, each program run 1-4 times; oracles: no new race report in the GORACE log while the program ran, no panic, no deadlock (20 s watchdog with index frames in the dump), per-id insert/remove/get outcomes linearizable as a set (porcupine), every search item corresponds to a version that may have been live during the search with exactly its score, and at quiescence Len == retrievable ids == stored vertices, structural invariants hold and searches satisfy C01's predicate, and after insert-only programs inside C07's exactness regime (n <= 2M+1, k = n) every stored item is returned, and finally one goroutine can remove every stored item again (no lock was left behind); non-trivial = >=2 goroutines touch the same id and one of them writes it; distinct = distinct case JSON",
 		Gen:     genCase,
 		Check:   check,
 		Journal: true,
